@@ -53,7 +53,7 @@ class C20(Check):
     extracted = ['coq/Args/model.mli', 'coq/Args/model.ml', 'ocaml/zconv.ml', 'ocaml/args_driver.ml']
     harness_sources = ['harness/args.cpp', 'harness/args_kernel.cpp']
     per_case_timeout = 20
-    level_text = ('44 Coq theorems (no axioms) about an executable model of Process.cpp (POSIX paths) that mirrors the code decision '
+    level_text = ('48 Coq theorems (no axioms) about an executable model of Process.cpp (POSIX paths) that mirrors the code decision '
                   'by decision with every forward string access going through a bounds-checked peek/advance and every backward one '
                   '(argument.attach(arg - 2, ..), attach(argName - 2, ..), attach(arg - 1, 1)) through attach_back, which answers out-of-'
                   'bounds unless the pointer stays at or behind the start of the string and the bytes handed out end at or before the '
@@ -81,7 +81,8 @@ class C20(Check):
                   'the descriptor-0 convention included); opened = closed + held for every descriptor (unconditionally, any answers); '
                   'each step keeps the invariant and answers like the life-cycle reference (idle / running with a set of open streams); '
                   'join returns WEXITSTATUS of the status the kernel delivers; join/kill/read(streams) on an object without a process '
-                  'and open/start on a running one are refused without a system call or any change; a failed waitpid changes nothing and '
+                  'and open/start on a running one are refused without a system call or any change (seen by the caller - ProcSpec.seen, '
+                  'the observation the oracle compares - as a failed call, false / -1, that changes nothing); a failed waitpid changes nothing and '
                   'can be retried; the object holds exactly one descriptor per open stream and none when idle, and after the destructor '
                   'every descriptor handed out was closed exactly once - these last two for all histories WITHOUT the two events on '
                   'which the code loses descriptors (vfork fails inside open; waitpid fails inside the destructor), for which the '
@@ -113,6 +114,13 @@ class C20(Check):
                   'join and the stream descriptors stay open (process_descriptor_leak_refuted has both witnesses). On these paths the '
                   'reference side of the check prints a wildcard (result of an unset, result/descriptor-0 offset of read/write without '
                   'stream, number of open descriptors for the rest of a case after a leaking event); the model side is compared exactly. '
+                  'SCOPE OF THE ORACLE ON MISUSE: the property text is silent on join/kill/read(streams) without a process and on '
+                  'open/start on a running object, and names no errno. The reference side therefore asks only that such a call fails '
+                  '(false / -1) and has no side effect (isRunning, open descriptors, stray closes, descriptor 0, and for the launch '
+                  'profile `again` the undisturbed first child with its exit code and streams); WHICH errno a failed call leaves '
+                  '(EINVAL where the object itself declines, in the code as it is) is printed in a model-only section (errno=.. of the '
+                  'Process-object lines, `| errno=..` of an `again` launch): a tree that reports misuse with other errno values ends '
+                  'in no-failing-input-found (correspondence), not in a failing input. '
                   'Also noted, not driven: read(buffer, length, streams) re-enters select() after a 1000 s time-out with the descriptor '
                   'set and the time-out both cleared by the kernel (would spin). A child ended by a signal is reported by join as '
                   'true with exit code 0 (WEXITSTATUS of a signal status). Theorems are about the model; the tie to the code is '
@@ -130,7 +138,12 @@ class C20(Check):
                   'space yields an empty word, an unterminated quote is accepted. The model mirrors the code after the repairs '
                   'fixes/C20/01..07. Map iteration order and Map::insert overwriting are taken as given (C01). splitCommandLine is a '
                   'file-local function: the harness compiles Process.cpp into its own translation unit to call it directly (which is '
-                  'also what lets a macro stand in front of vfork), and also drives it through open/start(commandLine). Trusted: Coq '
+                  'also what lets a macro stand in front of vfork), and also drives it through open/start(commandLine). The direct call '
+                  'is found at compile time (SFINAE on Process::Private::splitCommandLine(const String&, C&), C = whatever container '
+                  'of String the code fills); on a tree without such a function the split / round-trip cases go through the public '
+                  'Process::open("./ac " + line, stdoutStream) and read the words from the helper child\'s echo of argv[1..] (for the '
+                  'reference split("./ac " + l) = "./ac" :: split(l)) - the evidence (assumptions, stream notes) then says that the '
+                  'L-int seam was unavailable. Trusted: Coq '
                   'kernel, the getopt/word-splitting/map/life-cycle references (ArgsSpec.v, ProcSpec.v; getopt searched for disagreements '
                   'with glibc getopt_long on the vectors that do not abbreviate a long option name, as a search oracle), extraction + '
                   'OCaml driver (it also holds the expectations for wait/interrupt and for what the helper child does), harness, '
@@ -175,7 +188,23 @@ class C20(Check):
             if rc != 0:
                 b['impl_ok'] = False
                 b['errors'].append('helper child: ' + (o + e)[-1500:])
+        # which seam the harness found for the command-line splitter on this tree (see harness/args.cpp, section B)
+        self.split_seam = 'direct'
+        if b.get('impl_ok') and self.exes.get('impl') and os.path.exists(self.exes['impl']):
+            rc, o, e = sh([self.exes['impl'], '--seam'])
+            if rc == 0 and o.strip() == 'split public':
+                self.split_seam = 'public'
+                msg = ('L-int seam unavailable on this tree: no Process::Private::splitCommandLine(const String&, <container>&) to call; '
+                       'split / round-trip cases were driven through the public Process::open("./ac " + line, stdoutStream) and the '
+                       'words read from the helper child\'s argv[1..]')
+                log('[C20] ' + msg)
+                self.assumptions = list(type(self).assumptions) + [msg]
         return b
+
+    def seam_note(self, note):
+        if getattr(self, 'split_seam', 'direct') == 'public':
+            return (note + ' ' if note else '') + '[L-int seam unavailable: splitter reached through the public open(commandLine) and the helper child]'
+        return note
 
     # A sanitizer report ends the harness process (one restart per crashing case) and a hanging
     # splitter costs its watchdog time: on a tree where a defect hits a large part of an exhaustive
@@ -512,12 +541,12 @@ class C20(Check):
         # command lines
         n = 8 if thorough else 6
         out.append(Stream('split_ex', [['split ' + hx(s)] for s in strings_upto(CMD_ALPHA, n)], exhaustive=True,
-                          note='every command line up to length %d over {a SP " \\}' % n))
+                          note=self.seam_note('every command line up to length %d over {a SP " \\}' % n)))
         cases = []
         for _ in range(3000 if thorough else 600):
             k = rng.randrange(0, 40)
             cases.append(['split ' + hx(''.join(rng.choice('ab "\\\\"  \t\'=-') for _ in range(k)))])
-        out.append(Stream('split_rand', cases))
+        out.append(Stream('split_rand', cases, note=self.seam_note('')))
         out.append(Stream('launch', self.launch_cases(rng, thorough),
                           note='8 redirection combinations x forms; payloads around the pipe capacity; exit codes'))
         # round trip through the quoting function for all words (trailing backslashes included)
@@ -526,8 +555,8 @@ class C20(Check):
         ws2 = strings_upto(wal, 2)
         out.append(Stream('split_rt', [self.rt_case([w]) for w in ws1] + [self.rt_case([u, v]) for u in ws2 for v in ws2] +
                           [self.rt_case([rng.choice(ws1) for _ in range(rng.randrange(0, 6))]) for _ in range(1500 if thorough else 300)],
-                          note='split(join(words)) = words for every word list: single words up to length %d and pairs up to length 2 over '
-                               '{a SP " \\} exhaustively, longer lists at random' % (5 if thorough else 4)))
+                          note=self.seam_note('split(join(words)) = words for every word list: single words up to length %d and pairs up to length 2 over '
+                                              '{a SP " \\} exhaustively, longer lists at random' % (5 if thorough else 4))))
         # environment machine
         cases = []
         for start in self.ENV_STARTS:
